@@ -4,6 +4,7 @@ import EudoxiaModel.Model.Profile
 import EudoxiaModel.Model.Trace
 import EudoxiaModel.Model.Gen
 import EudoxiaModel.Model.Csv
+import EudoxiaModel.Model.Rest
 import EudoxiaModel.Model.Sched.Naive
 import EudoxiaModel.Model.Sched.Overbook
 import EudoxiaModel.Model.Sched.Priority
@@ -202,6 +203,18 @@ def step (d : DS) (line : String) : DS × String :=
     ({ d with ss := ss }, "{\"ok\":true}")
   | ["round", newp] => doRound d (parseList newp)
   | ["reset"] => ({}, "{\"ok\":true}")
+  | "rest" :: tps :: pn :: pd :: rest =>
+    (d, match Lean.Json.parse (" ".intercalate rest) >>= (fun j => do (← DJ.arr j).mapM (fun x => do
+            let l ← DJ.arr x
+            let comp ← DJ.natList (← DJ.nth l 2)
+            return ({ newP := ← DJ.natList (← DJ.nth l 0), hasResults := (← DJ.nat (← DJ.nth l 1)) != 0, complete := fun p => comp.contains p } : Rest.In))) with
+        | .error e => "{\"ok\":false,\"err\":\"parse\",\"detail\":" ++ (Lean.Json.str e).compress ++ "}"
+        | .ok ins =>
+          let out := Rest.run { tps := tps.toNat!, pollNum := pn.toNat!, pollDen := pd.toNat! } {} ins
+          "{\"ok\":true,\"calls\":" ++ jarr (out.map (fun o => match o with
+            | none => "null"
+            | some p => "{\"tick\":" ++ toString p.tick ++ ",\"new\":" ++ jarr (p.newP.map toString) ++ ",\"other\":" ++
+                jarr (p.other.map (fun x => jarr [toString x.1, (if x.2 then "1" else "0")])) ++ "}")) ++ "}")
   | "recount" :: rest =>
     (d, match Lean.Json.parse (" ".intercalate rest) >>= (fun j => do (← DJ.arr j).mapM DJ.tickEv) with
         | .error e => "{\"ok\":false,\"err\":\"parse\",\"detail\":" ++ (Lean.Json.str e).compress ++ "}"
